@@ -126,12 +126,19 @@ ViaRects(stk, c) ==
 Compile(stk, c, g) == CatQ([li1 \in 1..c.metals |-> LayerRects(stk, c, li1 - 1, g)]) \o ViaRects(stk, c)
 
 \* ---- when is an error the only correct outcome?
-TrackOK(stk, c, li, p, tr, t, g) ==
+\* `nets`: also require that no wire piece is given two different nets.  The property quantifies over cells whose
+\* differing nets are separated by cuts; a cell that puts two nets on one piece is OUTSIDE that domain (InDomain below)
+TrackOKn(stk, c, li, p, tr, t, g, nets) ==
   LET L == stk.metals[li + 1]  w == BlockWindow(L, p, tr, g)
       iv == (IF t >= 0 THEN CutsOn(stk, c, li, t) ELSE <<>>) \o BlocksOn(stk, c, li, w[1], w[2])
       pts == IF t >= 0 THEN PointsOn(stk, c, li, t) ELSE <<>>
       pcs == Pieces(iv, SpanOf(stk, c, L)) IN
-  Feasible(iv, SpanOf(stk, c, L)) /\ NetsConsistent(pts, pcs) /\ AssignedInWire(pts, pcs)
+  \* An assignment whose crossing lies in a removed span of this track (under an instance: the usual way to reach a pin on
+  \* the instance's top layer from above; or inside a cut) has NO wire piece covering the crossing on this layer: the
+  \* statement then asks nothing of this layer (the via is still due).  AssignedInWire is therefore not part of being
+  \* well formed; an error is acceptable as always.
+  Feasible(iv, SpanOf(stk, c, L)) /\ (nets => NetsConsistent(pts, pcs))
+TrackOK(stk, c, li, p, tr, t, g) == TrackOKn(stk, c, li, p, tr, t, g, TRUE)
 InRange(stk, c, l, t) == l >= 0 /\ l < c.metals /\ t >= 0 /\ t < NPeriods(stk, c, stk.metals[l + 1]) * NSig(stk.metals[l + 1])
 RefsOK(stk, c) ==
   /\ \A k \in 1..Len(c.cuts) : InRange(stk, c, c.cuts[k].l, c.cuts[k].t) /\ c.cuts[k].cl >= 0 /\ c.cuts[k].cl < Len(stk.metals)
@@ -139,11 +146,16 @@ RefsOK(stk, c) ==
   /\ \A k \in 1..Len(c.assigns) : LET a == c.assigns[k] IN
         /\ InRange(stk, c, a.l, a.t) /\ InRange(stk, c, a.cl, a.ct) /\ (a.l = a.cl + 1 \/ a.cl = a.l + 1)
         /\ stk.metals[a.l + 1].dir # stk.metals[a.cl + 1].dir
-WellFormed(stk, c, g) ==
+WellFormedN(stk, c, g, nets) ==
   /\ \A li1 \in 1..c.metals : Fits(stk, c, stk.metals[li1])
   /\ RefsOK(stk, c)
   /\ \A li1 \in 1..c.metals : LET li == li1 - 1  L == stk.metals[li1] IN
        \A pp \in 1..NPeriods(stk, c, L) : LET p == pp - 1 IN
-          /\ \A k \in 1..Len(Rails(L, p)) : TrackOK(stk, c, li, p, Rails(L, p)[k], -1, g)
-          /\ \A k \in 1..NSig(L) : TrackOK(stk, c, li, p, Signals(L, p)[k], (p * NSig(L)) + (k - 1), g)
+          /\ \A k \in 1..Len(Rails(L, p)) : TrackOKn(stk, c, li, p, Rails(L, p)[k], -1, g, nets)
+          /\ \A k \in 1..NSig(L) : TrackOKn(stk, c, li, p, Signals(L, p)[k], (p * NSig(L)) + (k - 1), g, nets)
+WellFormed(stk, c, g) == WellFormedN(stk, c, g, TRUE)
+\* the only thing wrong with the cell is that one wire piece is given two different nets: outside the property's domain
+\* ("differing nets separated by cuts"): no outcome is prescribed, only that the compiler does not crash
+NetConflictOnly(stk, c) == ~WellFormed(stk, c, "track") /\ ~WellFormed(stk, c, "period")
+                           /\ (WellFormedN(stk, c, "track", FALSE) \/ WellFormedN(stk, c, "period", FALSE))
 =============================================================================
